@@ -275,6 +275,11 @@ WOPNFile *WOPN_LoadBankFromMem(void *mem, size_t length, int *error)
             SET_ERROR(WOPN_ERR_NEWER_VERSION);
             return NULL;
         }
+        if(version < 2)
+        {/* This magic number begins with version 2: 0 and 1 have the older layout and no version field */
+            SET_ERROR(WOPN_ERR_BAD_MAGIC);
+            return NULL;
+        }
         GO_FORWARD(2);
     }
 
@@ -388,6 +393,8 @@ int WOPN_LoadInstFromMem(OPNIFile *file, void *mem, size_t length)
         version = toUint16LE(cursor);
         if(version > wopn_latest_version)
             return WOPN_ERR_NEWER_VERSION;
+        if(version < 2) /* This magic number begins with version 2 */
+            return WOPN_ERR_BAD_MAGIC;
         GO_FORWARD(2);
     }
 
